@@ -23,6 +23,7 @@ def main():
         print("unknown property", prop)
         return 3
     spec = props.SPECS[prop]
+    lock = cache_lock(shared=True)  # held while this check builds and runs; see trim_build_cache
     # VERIF_WORK: another scratch root, so that two runs of the same check (e.g. a seed regression and a manual try) do not collide
     workdir = os.path.join(os.environ.get("VERIF_WORK") or os.path.join(driver.VERIF, ".work"), prop)
     shutil.rmtree(workdir, ignore_errors=True)
@@ -40,23 +41,55 @@ def main():
     finally:
         if not a.keep:
             shutil.rmtree(workdir, ignore_errors=True)
-        trim_build_cache()
+        trim_build_cache(lock)
     return code
 
 
-def trim_build_cache(limit_mb=25000):
-    """Every run compiles a freshly generated corpus module (about 0.5 GB of build cache per check): empty the Go build cache when
-    it has grown beyond limit_mb, so that repeated runs never fill the disk. The next run is then a cold build (1-2 min slower)."""
+def cache_lock(shared):
+    """Advisory lock next to the Go build cache: every running check holds it shared, the cache is only emptied under the
+    exclusive lock, i.e. when no other check is building."""
+    import fcntl
     import subprocess
     try:
+        cache = subprocess.run(["go", "env", "GOCACHE"], capture_output=True, text=True, timeout=30).stdout.strip()
+        if not cache:
+            return None
+        os.makedirs(cache, exist_ok=True)
+        f = open(os.path.join(os.path.dirname(cache.rstrip("/")), ".verif-build-cache.lock"), "a+")
+        fcntl.flock(f, fcntl.LOCK_SH if shared else fcntl.LOCK_EX)
+        return f
+    except Exception:
+        return None
+
+
+def trim_build_cache(lock, limit_mb=25000):
+    """Every run compiles a freshly generated corpus module (about 0.5 GB of build cache per check): empty the Go build cache when
+    it has grown beyond limit_mb, so that repeated runs never fill the disk. The next run is then a cold build (1-2 min slower).
+    Only done when no other check is running (exclusive lock, not waited for): emptying the cache under a running build breaks it."""
+    import fcntl
+    import subprocess
+    try:
+        if lock is None:
+            return
         cache = subprocess.run(["go", "env", "GOCACHE"], capture_output=True, text=True, timeout=30).stdout.strip()
         if not cache or not os.path.isdir(cache):
             return
         mb = int(subprocess.run(["du", "-sm", cache], capture_output=True, text=True, timeout=120).stdout.split()[0])
-        if mb > limit_mb:
-            subprocess.run(["go", "clean", "-cache"], timeout=600)
+        if mb <= limit_mb:
+            return
+        fcntl.flock(lock, fcntl.LOCK_UN)
+        try:
+            fcntl.flock(lock, fcntl.LOCK_EX | fcntl.LOCK_NB)
+        except OSError:
+            return  # another check is running; it, or the next run, will do it
+        subprocess.run(["go", "clean", "-cache"], timeout=600)
     except Exception:
         pass
+    finally:
+        try:
+            lock.close()
+        except Exception:
+            pass
 
 
 if __name__ == "__main__":
